@@ -291,9 +291,9 @@ class Reader:
 
     def define_value(self, value):
         """Define a value"""
-        if value.name in self.undefined_values:
-            # Now what? Double declaration?
-            old_value = self.undefined_values.pop(value.name)
+        # Resolve forward references (one placeholder per assumed type):
+        for key in [k for k in self.undefined_values if k[0] == value.name]:
+            old_value = self.undefined_values.pop(key)
             assert isinstance(old_value, ir.Undefined)
             old_value.replace_by(value)
         self.scopes[-1].value_map[value.name] = value
@@ -309,11 +309,13 @@ class Reader:
                 value = scope.value_map[name]
                 break
         else:
-            if name in self.undefined_values:
-                value = self.undefined_values[name]
+            # The type of a value defined later on is not known yet, use
+            # a placeholder of the type the user expects:
+            if (name, ty) in self.undefined_values:
+                value = self.undefined_values[name, ty]
             else:
                 value = ir.Undefined(name, ty)
-                self.undefined_values[name] = value
+                self.undefined_values[name, ty] = value
         return value
 
     def _get_block(self, name):
@@ -337,8 +339,8 @@ class Reader:
                 # Go for binop
                 op = self.consume(self.peek)[1]
                 b = self.parse_id()
-                a = self.find_value(a)
-                b = self.find_value(b)
+                a = self.find_value(a, ty=ty)
+                b = self.find_value(b, ty=ty)
                 ins = ir.Binop(a, op, b, name, ty)
             elif a == "phi":
                 ins = ir.Phi(name, ty)
@@ -388,7 +390,7 @@ class Reader:
             ins = ir.AddressOf(src, name)
         elif self.peek in ir.Unop.ops:
             operation = self.consume(self.peek)[1]
-            a = self.parse_value_ref()
+            a = self.parse_value_ref(ty=ty)
             ins = ir.Unop(operation, a, name, ty)
         else:  # pragma: no cover
             raise NotImplementedError(self.peek)
